@@ -118,7 +118,15 @@ def run(prop_id, modname, jobs_fn, meta, argv=None):
         kf = next((k for k in known if k["fingerprint"] == fp), None)
         ok = None
         path = None
-        for c in lst[:4]:
+        # try counterexamples from different structures first
+        seen_jobs, order = set(), []
+        for c in lst:
+            jn = str(c.get("detail", {}).get("job", ""))
+            if jn not in seen_jobs:
+                seen_jobs.add(jn)
+                order.append(c)
+        order += [c for c in lst if c not in order]
+        for c in order[:6]:
             h = hashlib.sha1(json.dumps(c["replay"], sort_keys=True, default=str).encode()).hexdigest()[:10]
             path = os.path.join(VERIF, "replays", "%s_%s.json" % (prop_id, h))
             json.dump(c["replay"], open(path, "w"), indent=1, default=str)
